@@ -650,6 +650,19 @@ example :
       ⟨8, false, 1, 1, [1]⟩] ∧
     Conc.windowFailing mid2.st mid2.exits = [] ∧ Conc.windowFailing fin.st fin.exits = [] := by decide
 
+/-- test (one instance, not a theorem): run with nobody in between, the stepped entry-lock region of
+`join_scoped` (`joinLock`, one `joinOne` per distinct actor, `joinCommit`) ends in the state of the one-step
+`joinEntry` that the E-THR engine replays (same lookups in the forward map, scope index and reverse
+index), with the same payload (duplicates kept, the stopping actor 3 dropped) and the same recipients -/
+example :
+    let st0 := run init [.join 1 0 [1, 2], .monitor 0 9, .monitorScope 1 8, .exit 3]
+    let g := Conc.run (Conc.start st0 [.joinFiltered 1 0 [2, 4, 3, 4, 2]]) (List.replicate 5 (.call 0))
+    let je := joinEntry st0 1 0 [2, 4, 3, 4, 2]
+    g.thr = [.joinEntered 1 0 [2, 4, 3, 4, 2] je.2] ∧ g.locks = [] ∧
+    je.2 = some ⟨true, 1, 0, [2, 4, 4, 2], [9, 8]⟩ ∧
+    get g.st.map (1, 0) = get je.1.map (1, 0) ∧ g.st.index = je.1.index ∧
+    ([1, 2, 3, 4].all fun a => get g.st.rel a == get je.1.rel a) = true := by decide
+
 end C11
 
 #print axioms C11.ok_reachable
